@@ -8,6 +8,7 @@
 #if defined(__linux__)
 
 #include "async/async_runtime.h"
+#include "port/sync.h"
 #include <sys/epoll.h>
 #include <sys/eventfd.h>
 #include <sys/stat.h>
@@ -18,10 +19,24 @@
 
 #define MAX_EVENTS 64
 
+/* Completions posted by worker threads wait here until async_runtime_wait() picks
+ * them up. The eventfd is only the doorbell: its counter ADDS the values written
+ * to it, so it cannot carry the (key, data) pairs themselves - two posts before one
+ * wait would be merged into one bogus event.
+ */
+#define MAX_PENDING_COMPLETIONS 256
+
 struct async_runtime_s {
     int epoll_fd;
-    int event_fd;  /* For worker completions */
+    int event_fd;  /* Doorbell for worker completions and wake-ups */
     console_type_t console_type;  /* Detected console type */
+    platform_mutex_t pending_lock; /* Protects the pending completion ring */
+    struct {
+        uintptr_t key;
+        uintptr_t data;
+    } pending[MAX_PENDING_COMPLETIONS];
+    unsigned int pending_head;  /* Oldest pending completion */
+    unsigned int pending_count; /* Number of pending completions */
 };
 
 /* Helper functions */
@@ -48,8 +63,14 @@ async_runtime_t* async_runtime_init(void) {
     async_runtime_t* runtime = calloc(1, sizeof(async_runtime_t));
     if (!runtime) return NULL;
     
+    if (!platform_mutex_init(&runtime->pending_lock)) {
+        free(runtime);
+        return NULL;
+    }
+
     runtime->epoll_fd = epoll_create1(0);
     if (runtime->epoll_fd < 0) {
+        platform_mutex_destroy(&runtime->pending_lock);
         free(runtime);
         return NULL;
     }
@@ -58,6 +79,7 @@ async_runtime_t* async_runtime_init(void) {
     runtime->event_fd = eventfd(0, EFD_NONBLOCK);
     if (runtime->event_fd < 0) {
         close(runtime->epoll_fd);
+        platform_mutex_destroy(&runtime->pending_lock);
         free(runtime);
         return NULL;
     }
@@ -69,6 +91,7 @@ async_runtime_t* async_runtime_init(void) {
     if (epoll_ctl(runtime->epoll_fd, EPOLL_CTL_ADD, runtime->event_fd, &ev) < 0) {
         close(runtime->event_fd);
         close(runtime->epoll_fd);
+        platform_mutex_destroy(&runtime->pending_lock);
         free(runtime);
         return NULL;
     }
@@ -87,6 +110,7 @@ void async_runtime_deinit(async_runtime_t* runtime) {
         close(runtime->epoll_fd);
     }
     
+    platform_mutex_destroy(&runtime->pending_lock);
     free(runtime);
 }
 
@@ -148,18 +172,32 @@ int async_runtime_wait(async_runtime_t* runtime, io_event_t* events,
     for (int i = 0; i < result && event_count < max_events; i++) {
         /* Check if this is the eventfd */
         if (epoll_events[i].data.fd == runtime->event_fd) {
-            /* Drain eventfd and decode worker completions */
+            /* Ring of the doorbell: drain the eventfd counter (its value carries no
+             * information), then hand over the pending completions in posting order.
+             * A plain wake-up leaves nothing pending and produces no event.
+             */
             uint64_t val;
-            while (read(runtime->event_fd, &val, sizeof(val)) == sizeof(val)) {
-                if (event_count < max_events) {
-                    events[event_count].fd = -1;
-                    events[event_count].completion_key = (uintptr_t)(val >> 32);
-                    events[event_count].context = NULL;
-                    events[event_count].event_type = EVENT_READ;
-                    events[event_count].bytes_transferred = (int)(val & 0xFFFFFFFF);
-                    events[event_count].buffer = NULL;
-                    event_count++;
-                }
+            int more = 0;
+            while (read(runtime->event_fd, &val, sizeof(val)) == sizeof(val))
+                ;
+            platform_mutex_lock(&runtime->pending_lock);
+            while (runtime->pending_count > 0 && event_count < max_events) {
+                events[event_count].fd = -1;
+                events[event_count].completion_key = runtime->pending[runtime->pending_head].key;
+                events[event_count].context = NULL;
+                events[event_count].event_type = EVENT_READ;
+                events[event_count].bytes_transferred = (size_t)runtime->pending[runtime->pending_head].data;
+                events[event_count].buffer = NULL;
+                event_count++;
+                runtime->pending_head = (runtime->pending_head + 1) % MAX_PENDING_COMPLETIONS;
+                runtime->pending_count--;
+            }
+            more = runtime->pending_count > 0;
+            platform_mutex_unlock(&runtime->pending_lock);
+            if (more) {
+                /* Caller's event array is full: ring again so the next wait continues */
+                val = 1;
+                (void)!write(runtime->event_fd, &val, sizeof(val));
             }
         } else {
             /* Regular I/O event */
@@ -179,8 +217,19 @@ int async_runtime_wait(async_runtime_t* runtime, io_event_t* events,
 int async_runtime_post_completion(async_runtime_t* runtime, uintptr_t completion_key, uintptr_t data) {
     if (!runtime || runtime->event_fd < 0) return -1;
     
-    /* Write to eventfd to wake up epoll_wait */
-    uint64_t val = (((uint64_t)completion_key) << 32) | (data & 0xFFFFFFFF);
+    /* Queue the completion, then ring the doorbell to wake up epoll_wait */
+    platform_mutex_lock(&runtime->pending_lock);
+    if (runtime->pending_count >= MAX_PENDING_COMPLETIONS) {
+        platform_mutex_unlock(&runtime->pending_lock);
+        return -1; /* backend is not draining: refuse rather than merge or overwrite */
+    }
+    unsigned int slot = (runtime->pending_head + runtime->pending_count) % MAX_PENDING_COMPLETIONS;
+    runtime->pending[slot].key = completion_key;
+    runtime->pending[slot].data = data;
+    runtime->pending_count++;
+    platform_mutex_unlock(&runtime->pending_lock);
+
+    uint64_t val = 1;
     ssize_t n = write(runtime->event_fd, &val, sizeof(val));
     
     return (n == sizeof(val)) ? 0 : -1;
